@@ -437,13 +437,38 @@ def postArray (da : Bool) (ps : Path) (params : List (String × String × Ty)) (
     let rs := postArray da ps params outs (i + 1) xs r.2
     (r.1 :: rs.1, rs.2)
 
-/-- … over a typed map: record `k` goes to `outs/<k>`; Go iterates its map in
-no particular order — the driver uses the order given. -/
+/-- The directory of fork key `k` of a top-level call mapped over a typed map:
+`path.Join(outsPath, k)` for the clean absolute `outsPath` (regenerated as
+`Gen.postProcessForkDirs`).  `path.Join` drops empty elements, joins with `/`
+and applies `path.Clean`, so the key is NOT used as one path component: it is
+split at every `/`; empty components and `.` vanish (`""`, `"."`, `"a/"`,
+`"./a"`, `"a//b"`), `..` removes the component before it (`".."` is the
+pipestance directory itself, `"a/../b"` is `b`), and a key containing `/`
+names a directory nested below the directory of a shorter key.  For a key that
+is a legal file name this is `outs ++ [k]` (`joinKey_legal`). -/
+def joinKey (outs : Path) (k : String) : Path := cleanComps (splitSlash k.toList []) outs
+
+/-- neither path is a prefix of the other (decidable form of `Incomp`) -/
+def incompB (a b : Path) : Bool := !isPrefix a b && !isPrefix b a
+
+/-- The per-key directories of the fork keys `keys` are usable side by side:
+each lies at or below the outs directory, and they are pairwise incomparable
+(no two keys share a directory, none is nested inside another's). -/
+def keysSeparable (outs : Path) : List String → Bool
+  | [] => true
+  | k :: ks =>
+    isPrefix outs (joinKey outs k) && ks.all (fun k' => incompB (joinKey outs k) (joinKey outs k')) &&
+      keysSeparable outs ks
+
+/-- … over a typed map: record `k` goes to `joinKey outs k` (= `outs/<k>` for a
+key that is a legal file name); Go iterates its map in no particular order —
+the driver uses the order given (the harness reads the real order off the
+console log of the run it compares with). -/
 def postMap (da : Bool) (ps : Path) (params : List (String × String × Ty)) (outs : Path) :
     List (String × J) → FS → List (String × J) × FS
   | [], fs => ([], fs)
   | (k, x) :: xs, fs =>
-    let r := processStructOuts da ps params x (outs ++ [k]) fs
+    let r := processStructOuts da ps params x (joinKey outs k) fs
     let rs := postMap da ps params outs xs r.2
     ((k, r.1) :: rs.1, rs.2)
 
